@@ -1,10 +1,16 @@
 import Lean.Data.Json
 import Emboss.Model.Scope
+import Emboss.Model.ScopeSyntax
 import Driver.Util
 open Emboss.Scope Driver Lean
 
 /-!
 Line protocol for C12.
+
+`HOIST <json>` — json = {"module": file, "counter": value of the anonymous-name counter,
+"types": the type definitions of the file as written, each `[tag, name, subs, fields]`}.
+Answer: the (scope ++ [name]) of every type and of every field / enum value of the IR
+`module_ir` builds, in IR order, and the counter afterwards.
 
 `RESOLVE <json>` — json describes the module set as seen right before `resolve_symbols`
 (definitions in the order the passes of `_construct_symbol_tables` visit them, plain
@@ -90,6 +96,7 @@ def jfres : FRes → Json
   | .bail => "bail"
   | .crash => "crash"
   | .fuel => "fuel"
+  | .recursion => "recursion"
 
 def answer (M : ModuleDesc) (refs : List Ref) (frefs : List FRef) : Json :=
   match resolveSymbols M refs frefs with
@@ -102,7 +109,36 @@ def answer (M : ModuleDesc) (refs : List Ref) (frefs : List FRef) : Json :=
                 ("heads", Json.arr (rb.map jpath).toArray),
                 ("frefs", Json.arr (fr.map jfres).toArray)]
 
+partial def parseSyn (j : Json) : E Syn := do
+  match (← j.getArr?).toList with
+  | [t, n, subs, fields] =>
+    let tag ← match ← t.getStr? with
+      | "type" => pure Tag.typeDef
+      | "inline" => pure Tag.inline
+      | "anon" => pure Tag.anon
+      | "plain" => pure Tag.plain
+      | _ => throw "tag"
+    let ss ← (← subs.getArr?).toList.mapM parseSyn
+    let fs ← (← fields.getArr?).toList.mapM parseSyn
+    pure (.node tag (← n.getStr?) 0 ss fs)
+  | _ => throw "node"
+
+def hoist (j : Json) : E Json := do
+  let m ← str j "module"
+  let c ← nat j "counter"
+  let types ← (← arr j "types").toList.mapM parseSyn
+  let numbered := numberAll types c
+  let ir := buildModule numbered.1
+  let out (l : List (Path × String)) : Json := Json.arr (l.map (fun x => jpath (x.1 ++ [x.2]))).toArray
+  pure (Json.mkObj [("types", out (flatTypes [m] ir)), ("fields", out (flatFields [m] ir)),
+                    ("counter", jn numbered.2)])
+
 def handle (line : String) : String :=
+  if line.startsWith "HOIST " then
+    match Json.parse (line.drop 6).toString >>= hoist with
+    | .ok j => j.compress
+    | .error _ => "bad-op"
+  else
   if line.startsWith "RESOLVE " then
     match Json.parse (line.drop 8).toString >>= parseModule with
     | .ok (M, refs, frefs) => (answer M refs frefs).compress
